@@ -235,7 +235,9 @@ def sweep_cases(cases, rng, tier):
 
     def pick(pred, n):
         cand = [c for c in cases if pred(c)]
-        cand.sort(key=lambda c: (len(c['hist']), c['cid']))
+        # shortest first; among them calls with numeric_enums and a codec other than ber, so that a wrongly
+        # defaulted specification cannot coincide with the right one
+        cand.sort(key=lambda c: (len(c['hist']), c['hist'][-1]['ne'] != 'T', c['hist'][-1]['codec'] == 'ber', c['cid']))
         seen, res = set(), []
         for c in cand:
             sh = shape(c)
@@ -404,7 +406,7 @@ def c17(tier, seed):
             budget = tuple(int(x) for x in os.environ['VERIF_C17_BUDGET'].split(','))
         sel_f = [concretise(c, rng, tier) for c in select(focus, rng, budget[0])]
         sel_o = [concretise(c, rng, tier) for c in select(others, rng, budget[1])]
-        sweeps = sweep_cases(focus, rng, tier)
+        sweeps = [] if os.environ.get('VERIF_C17_NOSWEEP') else sweep_cases(focus, rng, tier)     # switch: development only
         # one order for all shards: witnesses first, then sweeps / one-key histories / interleaved-key
         # histories in turn, so that a deadline cuts all three kinds alike
         order = witness_cases()
